@@ -1544,6 +1544,9 @@ func (t *Topic) thisUserSub(sess *Session, pkt *ClientComMessage, asUid types.Ui
 			if sub != nil {
 				// Subscription exists, read old access mode.
 				oldWant = sub.ModeWant
+				// Channel readers are not cached between sessions: restore the stored marks, otherwise
+				// stale {note} messages would be accepted and move the stored marks backwards.
+				userData.delID, userData.readID, userData.recvID = sub.DelId, sub.ReadSeqId, sub.RecvSeqId
 			} else {
 				// Subscription not found, use default.
 				oldWant = types.ModeCChnReader
